@@ -1,45 +1,158 @@
 // Package wire performs network hops on real values: encode, marshal to
-// protobuf bytes, unmarshal, decode — optionally through a process that does
-// not know some type families (simulated by renaming family names on the
-// wire, DESIGN 3.3).
+// protobuf bytes, unmarshal, decode — optionally at a process that does not
+// know some type families (their decoders are removed for the duration of
+// the decode through the verif hook, DESIGN 3.3).
 package wire
 
 import (
+	"bytes"
 	"context"
 	"crypto/sha256"
 	"encoding/hex"
 
 	"github.com/cockroachdb/errors"
+	"github.com/cockroachdb/errors/errbase"
 	"github.com/cockroachdb/errors/errorspb"
 	"github.com/gogo/protobuf/proto"
+	"github.com/gogo/protobuf/types"
+
+	"verifharness/internal/cat"
 )
 
 // HopInfo records what travelled.
 type HopInfo struct {
-	Wire   *errorspb.EncodedError // message sent
-	Bytes  []byte
-	ReWire *errorspb.EncodedError // re-encoding of the received value
+	Bytes   []byte // message sent
+	ReBytes []byte // re-encoding of the received value
+	// Same: re-encoding reproduces the received message byte for byte.
+	Same bool
+	// SameModBarrier: the same, ignoring the reportable payload of barrier
+	// layers (which embeds a rendering of the hidden error).
+	SameModBarrier bool
+	// Knowing: the receiver knew every family.
+	Knowing bool
+	// Direct is, for a hop through an unknowing process, the value a knowing
+	// process would have decoded from the same message; Via is the value a
+	// knowing process decodes from the unknowing process's re-encoding.
+	Direct, Via error
 }
 
-// Hash of marshalled bytes.
+// Hash of bytes.
 func Hash(b []byte) string {
 	h := sha256.Sum256(b)
 	return hex.EncodeToString(h[:8])
 }
 
-// Hop transfers e once.
-func Hop(e error, known []string) (error, *HopInfo) {
-	ctx := context.Background()
-	enc := errors.EncodeError(ctx, e)
+// Marshal encodes and marshals.
+func Marshal(e error) []byte {
+	enc := errors.EncodeError(context.Background(), e)
 	b, err := proto.Marshal(&enc)
 	if err != nil {
 		panic("harness: marshal: " + err.Error())
 	}
+	return b
+}
+
+// Unmarshal unmarshals and decodes.
+func Unmarshal(b []byte) error {
 	var dec errorspb.EncodedError
 	if err := proto.Unmarshal(b, &dec); err != nil {
 		panic("harness: unmarshal: " + err.Error())
 	}
-	res := errors.DecodeError(ctx, dec)
-	re := errors.EncodeError(ctx, res)
-	return res, &HopInfo{Wire: &enc, Bytes: b, ReWire: &re}
+	return errors.DecodeError(context.Background(), dec)
+}
+
+// forget removes the decoders of every family outside known.
+func forget(known []string) (restore func()) {
+	ks := map[string]bool{}
+	for _, k := range known {
+		ks[k] = true
+	}
+	var del []errbase.TypeKey
+	reg := errbase.VerifRegistryKeys()
+	for _, name := range []string{"leafDecoders", "decoders", "multiCauseDecoders"} {
+		for _, key := range reg[name] {
+			if !ks[cat.FamOf(key)] {
+				del = append(del, errbase.TypeKey(key))
+			}
+		}
+	}
+	return errbase.VerifForgetDecoders(del)
+}
+
+// stripBarrierRP clears the reportable payload of barrier layers, recursively
+// (also inside nested payloads).
+func stripBarrierRP(enc *errorspb.EncodedError) {
+	if w := enc.GetWrapper(); w != nil {
+		stripDetails(&w.Details)
+		stripBarrierRP(&w.Cause)
+		return
+	}
+	if l := enc.GetLeaf(); l != nil {
+		if cat.FamOf(l.Details.ErrorTypeMark.FamilyName) == "barrierErr" {
+			l.Details.ReportablePayload = nil
+		}
+		stripDetails(&l.Details)
+		for _, c := range l.MultierrorCauses {
+			stripBarrierRP(c)
+		}
+	}
+}
+
+func stripDetails(d *errorspb.EncodedErrorDetails) {
+	if d.FullDetails == nil {
+		return
+	}
+	var da types.DynamicAny
+	if err := types.UnmarshalAny(d.FullDetails, &da); err != nil {
+		return
+	}
+	if inner, ok := da.Message.(*errorspb.EncodedError); ok {
+		stripBarrierRP(inner)
+		if any, err := types.MarshalAny(inner); err == nil {
+			d.FullDetails = any
+		}
+	}
+}
+
+func modBarrier(b []byte) []byte {
+	var dec errorspb.EncodedError
+	if err := proto.Unmarshal(b, &dec); err != nil {
+		panic("harness: unmarshal: " + err.Error())
+	}
+	stripBarrierRP(&dec)
+	out, err := proto.Marshal(&dec)
+	if err != nil {
+		panic("harness: marshal: " + err.Error())
+	}
+	return out
+}
+
+// Hop transfers e once to a process knowing the given families ("*" = all).
+func Hop(e error, known []string) (error, *HopInfo) {
+	knowing := false
+	for _, k := range known {
+		if k == "*" {
+			knowing = true
+		}
+	}
+	info := &HopInfo{Knowing: knowing}
+	info.Bytes = Marshal(e)
+	var res error
+	if knowing {
+		res = Unmarshal(info.Bytes)
+	} else {
+		restore := forget(known)
+		func() {
+			defer restore()
+			res = Unmarshal(info.Bytes)
+		}()
+	}
+	info.ReBytes = Marshal(res)
+	info.Same = bytes.Equal(info.Bytes, info.ReBytes)
+	info.SameModBarrier = info.Same || bytes.Equal(modBarrier(info.Bytes), modBarrier(info.ReBytes))
+	if !knowing {
+		info.Direct = Unmarshal(info.Bytes)
+		info.Via = Unmarshal(info.ReBytes)
+	}
+	return res, info
 }
